@@ -15,7 +15,7 @@ RULE = ('configured hold x proposed hold from {0,3,4,9,30,90,180,65535} x arriva
 ASSUMPTIONS = ['simulated Twisted reactor with virtual time (verif/shims); 1 us tolerance for float keepalive periods',
                'reference deframer vlib/wire.py reads the OPEN hold times from the wire']
 SHARD_TIMEOUT = {'quick': 240, 'thorough': 1500}
-HOLDS = [0, 3, 4, 9, 30, 90, 180, 65535]
+HOLDS = [0, 3, 4, 5, 7, 8, 9, 10, 20, 30, 90, 180, 240, 65535]
 EPS = 1e-6
 UPD_BAD = S.frame(2, b'\x00\x00\x00\x04\x40\x01\x01\x07')     # ORIGIN value 7: malformed body, well framed
 
@@ -51,7 +51,7 @@ def schedules(H, rng, n_random):
     return out
 
 
-def run_case(cfg_hold, prop_hold, sched, order, phase='established'):
+def run_case(cfg_hold, prop_hold, sched, order, phase='established', ka_delay=0.0):
     """Returns (violations, info).  order: 'msg' = arrival first at a tie, 'timer' = timer first."""
     w = World(time_opts={'hold_time': cfg_hold})
     V = []
@@ -86,9 +86,10 @@ def run_case(cfg_hold, prop_hold, sched, order, phase='established'):
     H = min(o['hold'], prop_hold)
     if H in (1, 2):
         return [], info
-    w.deliver(KEEPALIVE, tr)          # -> Established
+    # the hold timer runs from the OPEN; the KEEPALIVE that establishes the session is the first arrival of the schedule
     D = (w.now() + H) if H else None
     D_hi = D
+    sched = [(ka_delay, 'KA')] + list(sched)
     expected_expiry = None
     arrivals = 0
     horizon_extra = 300.0 if H == 0 else min(3.0 * H + 1.0, 2000.0)
@@ -184,13 +185,25 @@ def run_shard(sh):
         res['evaluations'] += 1
         for v in V:
             viol.setdefault((v['kind'], tuple(v['features'][:1])), dict(v, replay=dict(cfg_hold=c, prop_hold=p, sched=[], order='msg', phase='opensent')))
-        for name, sched in schedules(H, rng, sh['n_random']):
+        scheds = [(name, sched, 0.0) for name, sched in schedules(H, rng, sh['n_random'])]
+        if H:
+            e = 0.001
+            for d in (H / 3.0 - e, H / 3.0 + e, H / 2.0, H - e, float(H), H + e):
+                scheds.append(('late-first-keepalive', [(H / 2.0, 'KA'), (H - e, 'UPD')], d))
+                scheds.append(('late-first-keepalive-then-gap', [(H - d / 2.0, 'KA')] if d < H else [], d))
+            for i in range(sh['n_random']):
+                scheds.append(('rand-late%d' % i, [(rng.choice([H / 3.0, H / 2.0, H - e, float(H)]), rng.choice(['KA', 'UPD'])) for _ in range(3)],
+                               rng.choice([e, H / 4.0, H / 2.0, H - e])))
+        else:
+            scheds.append(('late-first-keepalive', [(100.0, 'KA')], 50.0))
+            scheds.append(('very-late-first-keepalive', [(100.0, 'KA')], 300.0))
+        for name, sched, ka_delay in scheds:
             for order in ('msg', 'timer'):
-                V, info = run_case(c, p, sched, order)
+                V, info = run_case(c, p, sched, order, ka_delay=ka_delay)
                 if order == 'timer' and not info.get('ties'):
                     continue            # identical to the 'msg' run
                 res['evaluations'] += 1
-                res['distinct'].append('%d|%d|%s|%s' % (c, p, name if not name.startswith('rand') else repr(sched), order))
+                res['distinct'].append('%d|%d|%s|%s|%s' % (c, p, name if not name.startswith('rand') else repr(sched), order, ka_delay))
                 res['counters']['emissions_checked'] += info.get('emissions', 0)
                 res['counters']['expiries_checked'] += info.get('expiries', 0)
                 res['counters']['same_instant_ties'] += info.get('ties', 0)
@@ -199,7 +212,7 @@ def run_shard(sh):
                 res['maxima']['max_expiry_time_error'] = max(res['maxima'].get('max_expiry_time_error', 0), info.get('expiry_err', 0))
                 for v in V:
                     key = (v['kind'], tuple(x for x in v['features'] if x in ('H0', 'Hpos', 'opensent')))
-                    viol.setdefault(key, dict(v, replay=dict(cfg_hold=c, prop_hold=p, sched=sched, order=order)))
+                    viol.setdefault(key, dict(v, replay=dict(cfg_hold=c, prop_hold=p, sched=sched, order=order, ka_delay=ka_delay)))
         res['sets'].setdefault('hold_pairs', []).append('%d/%d' % (c, p))
     if sh['pairs']:
         c, p = sh['pairs'][0]
@@ -221,5 +234,6 @@ def floors(m, tier):
 
 
 def replay(rep):
-    V, info = run_case(rep['cfg_hold'], rep['prop_hold'], [tuple(x) for x in rep['sched']], rep['order'], rep.get('phase', 'established'))
+    V, info = run_case(rep['cfg_hold'], rep['prop_hold'], [tuple(x) for x in rep['sched']], rep['order'], rep.get('phase', 'established'),
+                       ka_delay=rep.get('ka_delay', 0.0))
     return V
